@@ -684,6 +684,11 @@ func c05Objects(c *Ctx) {
 		{"a := {\"k\": 1}\nfunc f(m) {\n  m.k := 7\n  m[\"j\"] := 8\n}\nf(a)\nprobe(\"map-parameter-by-reference#1\", a.k)\nprobe(\"map-parameter-by-reference#2\", a.j)\n", []string{"map-parameter-by-reference#1=7", "map-parameter-by-reference#2=8"}},
 		{"a := {\"k\": {\"l\": [1, {\"m\": 2}]}}\na.k.l[1].m := 5\nprobe(\"nested-path#1\", a.k.l[1].m)\na[\"k\"][\"l\"][0] := 6\nprobe(\"nested-path#2\", a.k.l[0])\nprobe(\"nested-path#3\", a[\"k\"].l[-1][\"m\"])\n", []string{"nested-path#1=5", "nested-path#2=6", "nested-path#3=5"}},
 		{"m := {1: \"a\"}\nm[1] := \"b\"\nprobe(\"number-key-write-then-read\", m[1])\nprobe(\"number-key-len\", len(m))\n", []string{`number-key-write-then-read="b"`, "number-key-len=1"}},
+		// every evaluation of a container literal yields a new container (a function called twice, a loop body)
+		{"func mk() {\n  let l := [1, 2, 3]\n  return l\n}\na := mk()\nb := mk()\na[0] := 9\nprobe(\"fresh-list-literal#1\", b[0])\nc := mk()\nprobe(\"fresh-list-literal#2\", c[0])\n", []string{"fresh-list-literal#1=1", "fresh-list-literal#2=1"}},
+		{"acc := []\nfor i in range(1, 3) {\n  row := [0, 0]\n  row[0] := i\n  acc := add(acc, row)\n}\nprobe(\"fresh-list-literal#3\", acc)\n", []string{"fresh-list-literal#3=[[1,0],[2,0],[3,0]]"}},
+		{"func mk() {\n  return {\"k\": 0, \"l\": [true, null]}\n}\na := mk()\nb := mk()\na.k := 9\na.l[0] := false\nprobe(\"fresh-map-literal#1\", b.k)\nprobe(\"fresh-map-literal#2\", b.l[0])\n", []string{"fresh-map-literal#1=0", "fresh-map-literal#2=true"}},
+		{"func mk() {\n  return [[1], [2]]\n}\na := mk()\na[0][0] := 9\nb := mk()\nprobe(\"fresh-nested-literal\", b[0][0])\n", []string{"fresh-nested-literal=1"}},
 		// except / otherwise / finally blocks are siblings of the try block, not its children: names local to the try block are not visible in them
 		{"x := \"global\"\ntry {\n  let x := \"inner\"\n  raise(\"E\")\n} except e {\n  probe(\"handler-sees-enclosing#1\", x)\n  x := \"assigned\"\n} finally {\n  probe(\"handler-sees-enclosing#2\", x)\n}\nprobe(\"handler-sees-enclosing#3\", x)\n",
 			[]string{`handler-sees-enclosing#1="global"`, `handler-sees-enclosing#2="assigned"`, `handler-sees-enclosing#3="assigned"`}},
